@@ -224,7 +224,7 @@ func init() {
 				}
 			}
 		}
-		r.Floor("lastPageID accesses outside constructors", cnt, 3)
+		r.Floor("lastPageID accesses outside constructors", cnt, 2)
 	})
 }
 
